@@ -44,6 +44,11 @@ PATCHES = {
     "jmplab": ("jmp L2\nP2:", {"P2": 2}, "jmp"),
     "cfi": ("pushq %rax\n.cfi_adjust_cfa_offset 8\npopq %rax\n.cfi_adjust_cfa_offset -8", {}, None),
     "symexpr": ("movq L2(%rip), %rax", {}, None),
+    # a RIP-relative operand FOLLOWED by an immediate (the PC-relative bias differs from the field's distance to the end of the
+    # instruction), and an explicit addend
+    "symexprimm": ("addl $1, L2(%rip)", {}, None),
+    "symexprimm4": ("movq $7, L2(%rip)", {}, None),
+    "symexpradd": ("leaq L2+4(%rip), %rax", {}, None),
 }
 
 CFI_LAYOUTS = {
